@@ -113,6 +113,7 @@ type Stats struct {
 	Intrusions         int64
 	StackGuard         int64
 	ChildTasks         int64 // goroutines started by the library (rewritten go statements)
+	ChanBlocked        int64 // channel operations that had to wait
 }
 
 // Event is one record of the trace ring.
@@ -184,6 +185,8 @@ type World struct {
 	rotCtr     uint64
 	poolCount  uint32
 
+	chans      []*chanState // channels of library code (side table keyed by channel identity)
+	chanTicket uint64
 	mainParked bool // the main goroutine is parked as a task (waiting for goroutines the library started)
 
 	// Intruder is the interfering call (set by the harness); intruding is true while it runs.
